@@ -164,7 +164,7 @@ func (fe functionExpr) CompletionAtPos(ctx context.Context, pos hcl.Pos) []lang.
 		recoveredBytes := recoverLeftBytes(fileBytes, pos, func(byteOffset int, r rune) bool {
 			return (r == ',' || r == '(') && byteOffset > lastArgEndPos.Byte
 		})
-		trimmedBytes := bytes.TrimRight(recoveredBytes, " \t\n")
+		trimmedBytes := bytes.TrimRight(recoveredBytes, " \t\r\n")
 
 		activePar := lastArgIdx // default to last seen parameter
 		elemExpr := newEmptyExpressionAtPos(fe.expr.Range().Filename, pos)
